@@ -83,6 +83,8 @@ type State struct {
 	definable map[int]bool
 	reads   []streamRead
 	ghostCells map[int]Value
+	closerFresh map[int]bool // fresh channels stored (only) in a field with a closer declaration
+	closerSpawned bool
 	guardVals map[string]Value // value of guarded fields right after the last acquisition of their guard
 	recDone map[string]bool
 	guardSnaps map[int]*MapSnap // content of guarded maps right after the last lock acquisition
@@ -156,6 +158,8 @@ func (st *State) clone() *State {
 	n.trail = append([]string{}, st.trail...)
 	n.reads = st.reads
 	n.ghostCells = st.ghostCells
+	n.closerFresh = st.closerFresh
+	n.closerSpawned = st.closerSpawned
 	n.guardVals = st.guardVals
 	n.recDone = st.recDone
 	n.guardSnaps = st.guardSnaps
@@ -332,6 +336,12 @@ func (m *Machine) heapGet(st *State, name string, s *Sort) *Term {
 		}
 		return t
 	}
+	if name == "chan.closedByMe" {
+		// nothing has been closed by this activation yet
+		t := m.ctx.ConstArr(s, m.ctx.F)
+		st.heap[name] = t
+		return t
+	}
 	t := m.ctx.Var("H0."+name, s)
 	if m.baseInfo[t.id] == nil {
 		m.baseInfo[t.id] = &baseArrInfo{nfresh: 0, escaped: map[int]bool{}}
@@ -432,6 +442,15 @@ func (m *Machine) Store(st *State, p *Ptr, v Value) {
 			st.heap[name] = m.ctx.Store(arr, p.Ref, m.ctx.Store(inner, p.Idx, terms[i]))
 		} else {
 			st.heap[name] = m.ctx.Store(arr, p.Ref, terms[i])
+		}
+	}
+	if _, ok := m.P.Contracts.Closers[p.Mem+"."+p.Path]; ok {
+		if t, isT := v.(*Term); isT && m.isLocalRef(st, t) {
+			nc := map[int]bool{t.id: true}
+			for k := range st.closerFresh {
+				nc[k] = true
+			}
+			st.closerFresh = nc
 		}
 	}
 	// anything stored into memory that is not a non-escaped fresh object escapes
